@@ -16,7 +16,7 @@ STD = "ACDEFGHIKLMNPQRSTVWY"
 EXTRA = "UO"
 RARE = "JX"
 
-NUM_INT = [1, 2, 10, 57, -18, 100, -1, -2]
+NUM_INT = [1, 2, 10, 57, -18, 100, -1, -2, 0]      # 0: a legal, falsy value
 NUM_FLOAT = [3.1415, 15.9949, -17.026549, 79.966331, 0.984, 42.010565, -2.5]
 UNIMOD = ['Phospho', 'Oxidation', 'Acetyl', 'Carbamidomethyl', 'Methyl', 'Deamidated', 'Amidated']
 ACC = ['UNIMOD:21', 'U:21', 'U:Phospho', 'MOD:00046', 'M:00046', 'XLMOD:02001', 'X:02001', 'UNIMOD:35', 'U:1']
@@ -32,7 +32,7 @@ OBS = ['Obs:+12.5', 'Obs:-3.25', 'U:+15.99']
 TAG = ['Phospho#g1', '#g1(0.5)', 'Oxidation#g2(0.9)']
 ALT = ['Oxidation|INFO:x', 'Obs:+5.5|INFO:y', 'Acetyl|Obs:+42.01']
 INFO = ['INFO:note']
-POISON = ['NotAMod', 'UNIMOD:999999', 'Formula:Zz2', 'Glycan:Foo', 'Obs:abc']
+POISON = ['NotAMod', 'UNIMOD:999999', 'Formula:Zz2', 'Glycan:Foo', 'Obs:abc', 'Glycan:hex', 'Glycan:Hexx2', 'phospho ', 'Formula:c2']   # incl. near-misses of real names
 
 FAMILIES = {'poisonvals': POISON, 'int': NUM_INT, 'float': NUM_FLOAT, 'unimod': UNIMOD, 'acc': ACC, 'formula': FORMULA,
             'glycan': GLYCAN, 'obs': OBS, 'tag': TAG, 'alt': ALT, 'info': INFO}
